@@ -74,8 +74,15 @@ def sym_int(x=0, *a):
     return _real_int(x, *a)
 
 
+def sym_repr(x):
+    if isinstance(x, S.Sym) and not x.is_const() and S.state() is not None:
+        return format_sym(x, "r")
+    return builtins.repr(x)
+
+
 def install(modules):
-    """Shadow float/int in the globals of the given (repository) modules."""
+    """Shadow float/int/repr in the globals of the given (repository) modules."""
     for m in modules:
         m.float = sym_float
         m.int = sym_int
+        m.repr = sym_repr
